@@ -53,6 +53,10 @@ def list_length(repo: Repo, ci: ClassInfo, attr: str) -> Optional[int]:
         init = c.methods.get("__init__")
         if init is None:
             continue
+        try:
+            init = repo.own_method(c, "__init__")          # normal form: a private factory of the list is read through
+        except Exception:
+            pass
         for n in walk_no_nested(init):
             if isinstance(n, ast.Assign) and norm(n.targets[0]) == f"self.{attr}":
                 v = n.value
